@@ -258,6 +258,9 @@ def callee_name(term):
 
 # --------------------------------------------------------------------------- body
 
+_COUNT_ADAPTORS = ('skip', 'take', 'step_by', 'nth', 'chunks', 'chunks_exact', 'windows', 'rchunks', 'nth_back')
+
+
 class Body:
     def __init__(self, raw, facts):
         self.raw = raw
@@ -552,7 +555,13 @@ class Body:
                 changed |= add(key(d), new)
             for t in calls:
                 new = set()
-                srcs = places(t['args'], [])
+                args = t['args']
+                ci = call_info(t)
+                if ci and ci['fn'].rsplit('::', 1)[-1] in _COUNT_ADAPTORS and ('Iterator' in ci['fn'] or 'slice' in ci['fn']) and args:
+                    # it.skip(n) / take(n) / step_by(n) / nth(n) / chunks(n) ...: the elements come from the receiver, the count
+                    # only selects them (like an index operand)
+                    args = args[:1]
+                srcs = places(args, [])
                 for pl in srcs:
                     new |= read(pl)
                 for pl in srcs:
